@@ -139,7 +139,7 @@ fn specs() -> Vec<CheckSpec> {
     CheckSpec {
         id: "C08",
         profile: Profile::Core,
-        more_profiles: &[Profile::Lifecycle, Profile::Rewards],
+        more_profiles: &[Profile::Lifecycle, Profile::Rewards, Profile::T22],
         mk: mk_c08,
         level: "exploration",
         rule: "HIST every landed increase/decrease (v1, v2), by-token-amounts and reposition is checked from balance deltas against exact big-integer amounts (up on deposit, down on withdrawal, one-sided outside the range incl. price on a bound and the shifted state); success implies the caller's max/min was respected; a third are replayed on forks with token_max = cost / cost-1 and token_min = proceeds / proceeds+1; a quarter of the increases are followed on a fork by removing the same liquidity at the unchanged price; by-token-amounts must yield the largest liquidity that fits; a case is one (instruction, price region relative to the range, spacing, liquidity magnitude, zero-amount sides) tuple",
